@@ -47,6 +47,11 @@ def _geom_batch(task):
     if cell is not None:
         # the cell varies from frame to frame (integer multiples; orthorhombic ones also stretched per axis), > 256 frames per call
         cm = np.array(cell, dtype=float)[None] * rs.randint(1, 3, size=(n, 1, 1))
+        if cell_i >= 2:
+            # triclinic frames take turns among the three triclinic shapes (a multiple of one cell is a sub-lattice of it: a kernel
+            # that used a stale cell of the same shape would still find the right image)
+            pick = rs.randint(2, 5, size=n)
+            cm = np.array([CELLS[c] for c in pick], dtype=float) * rs.randint(1, 3, size=(n, 1, 1))
         if cell_i == 1:
             cm = cm + np.eye(3)[None] * rs.randint(0, 4, size=(n, 3))[:, None, :]
         cm[0] = np.array(cell, dtype=float)
